@@ -18,26 +18,6 @@ let sig_of_code (c : int) : ostring = match c with
   | 2006 -> "heartbtint-not-taken"
   | n -> "code-" ^ string_of_int n
 
-(* C03 needs the store before each ResendRequest: taken from the model's run alongside *)
-let c03_failures cfg events (os : obs list) =
-  let rec go i s evs os acc = match evs, os with
-    | e :: er, o :: orr ->
-      let acc' = (match e with
-        | EIncoming m when string_of_bytes m.mi_type = "2" ->
-          let logged = is_logged_on s.s_st in
-          let recovering = (match s.s_st with SResend _ | SPending (SResend _) -> true | _ -> false) in
-          let ok_ctx = logged && not recovering && OList.length s.s_to_send = 0 && OList.length s.s_in_buf = 0
-                       && (match check_begin_string s m, check_comp_id s m with None, None -> true | _ -> false)
-                       && (match check_sending_time s m with None -> true | _ -> false)
-                       && (match m.mi_valid, m.mi_app with VAccept, VAccept -> true | _ -> false) in
-          (* while recovering, the engine may also send its own next-chunk ResendRequest in the same step: not part of the reply *)
-          let reply = OList.filter (fun w -> not (string_of_bytes w.o_type = "2")) o.ob_wire in
-          if ok_ctx then OList.map (fun c -> (i, c)) (c03_reply_check cfg s.s_msgs s.s_snd m reply) else []
-        | _ -> []) in
-      go (i + 1) (step s e) er orr (acc @ acc')
-    | _ -> acc in
-  go 0 (init_sess cfg) events os []
-
 let check (prop : ostring) cfg events (obs : Sx.t) : bool * ostring =
   let os = list_sx obs_sx obs in
   let tr = OList.combine events os in
@@ -49,7 +29,7 @@ let check (prop : ostring) cfg events (obs : Sx.t) : bool * ostring =
     | "C07" -> c07_check cfg tr
     | "C08" -> c08_check tr
     | "C20" -> c20_check cfg tr
-    | "C03" -> OList.map (fun (i, c) -> (nat_of_int i, c)) (c03_failures cfg events os)
+    | "C03" -> c03_check cfg tr
     | _ -> [] in
   let idok = OList.for_all idok_all (Sx.list obs) in
   if not idok then (false, "sig=wire-identity an outbound message does not carry the session's BeginString/CompIDs")
